@@ -185,15 +185,15 @@ PROPS = {
                                     "CombinedCategoricalDissimilarity.d",
                                     "PrecomputedCategoricalDissimilarity.compile_d_mat", "AbstractDissimilarity.__init__#precomputed",
                                     "CategoricalDissimilarity.__init__#precomputed", "PrecomputedCategoricalDissimilarity.__init__",
-                                    "PrecomputedCategoricalDissimilarity.d", "LambdaCategoricalDissimilarity.__init__",
+                                    "PrecomputedCategoricalDissimilarity.d", "LambdaCategoricalDissimilarity.__init__", "AbstractDissimilarity.check_if_dissim",
                                     # ordinal / numerical: the entry of two NAMES is the distance of their positions over the largest distance,
                                     # whatever the order supplied (np.argsort enumeration == SortedSet enumeration: induction lemma)
                                     "OrdinalCategoricalDissimilarity.__init__#default", "OrdinalCategoricalDissimilarity.__init__#given",
                                     "NumericalCategoricalDissimilarity.__init__")],
         oracles=[DS + "CombinedCategoricalDissimilarity.__init__"],
         bounded=[dict(oracle=DS + "CombinedCategoricalDissimilarity.__init__",
-                      what="Levenshtein's distance function itself (assumed: a function of the two names) and check_if_dissim (assumed to change "
-                           "nothing) are not under contract; the matrix-building constructors are proved (lambda family: matrix built from the "
+                      what="Levenshtein's distance function itself (assumed: a function of the two names) is not under contract; check_if_dissim "
+                           "is proved to change nothing (it may raise ValueError); the matrix-building constructors are proved (lambda family: matrix built from the "
                            "sorted SET of the labels; ordinal / numerical: np.argsort / np.unique / np.arange and the parse of number literals "
                            "are assumed library models, a list p of positions is covered as a float32 array only); that d() and d_mat(encoded units) coincide is the "
                            "corollary 'both equal the same formula' given an injective category index: every class, delta_empty in "
@@ -210,7 +210,7 @@ PROPS = {
         trusted=S_COMMON + ["model: pyannote Segment.duration", "closure semantics: captured names are declared and checked against the "
                             "free variables of the closure body; a nested def yields a pure function value satisfying its own (separately "
                             "proved) contract with the captured names bound to their values at the definition (not re-assigned afterwards: checked)",
-                            "check_if_dissim assumed to modify nothing (it may raise ValueError)"],
+                            "model: stdlib random generator (support only; randrange of an empty range raises ValueError)"],
     ),
     "C09": dict(
         functions=[DS + "PositionalSporadicDissimilarity.compile_d_mat.<locals>.d_mat", DS + "AbsoluteCategoricalDissimilarity.compile_d_mat.<locals>.d_mat",
